@@ -752,6 +752,7 @@ func schemaStringsCompare(x *Exec, st *State, fn *ssa.Function, args []Val, c *s
 func (x *Exec) firstDiff(a, b StrVal) *Term {
 	o := x.o
 	d := o.UF("seq.firstdiff", IntSort, a.Arr, a.Off, a.Len, b.Arr, b.Off, b.Len)
+	o.SetRange(d, big.NewInt(0), big.NewInt(1<<62))
 	if x.fdDone == nil {
 		x.fdDone = map[*Term]bool{}
 	}
@@ -775,6 +776,7 @@ func (x *Exec) indexByte(s StrVal, c *Term, last bool) *Term {
 		name = "seq.lastindexbyte"
 	}
 	r := o.UF(name, IntSort, s.Arr, s.Off, s.Len, c)
+	o.SetRange(r, big.NewInt(-1), big.NewInt(1<<62))
 	if x.fdDone == nil {
 		x.fdDone = map[*Term]bool{}
 	}
